@@ -250,10 +250,8 @@ func cmdCheck(args []string) int {
 		var b strings.Builder
 		b.WriteString("; lemma " + lem.Name + "\n")
 		var raws strings.Builder
-		for _, raw := range w.CS.SMT {
-			if raw.Mode == "" || raw.Mode == mode.String() {
-				raws.WriteString(raw.Text + "\n")
-			}
+		for _, r := range selectRaw(w.CS.SMT, mode.String(), lem.Text) {
+			raws.WriteString(r + "\n")
 		}
 		b.WriteString(st.prelude(raws.String() + lem.Text))
 		b.WriteString(raws.String())
@@ -265,7 +263,7 @@ func cmdCheck(args []string) int {
 	for _, k := range ps.Functions {
 		items = append(items, noEffectObligations(w, k)...)
 	}
-	if len(items) == 0 && len(ps.Bounded) == 0 {
+	if len(items) == 0 && len(ps.Bounded) == 0 && len(stale) == 0 {
 		return internalErr("no obligations generated for %s", id)
 	}
 	if !*rebase {
@@ -284,7 +282,7 @@ func cmdCheck(args []string) int {
 			}
 		}
 	}
-	solveAll(items, outDir, timeout, 16)
+	solveAll(items, outDir, timeout, 12)
 
 	// group results
 	groups := map[string]*groupStatus{}
